@@ -228,3 +228,9 @@ func (p *End) RemoteAddr() Addr                   { return p.remote }
 func (p *End) SetDeadline(t time.Time) error      { return nil }
 func (p *End) SetReadDeadline(t time.Time) error  { return nil }
 func (p *End) SetWriteDeadline(t time.Time) error { return nil }
+
+// Inject delivers a segment to the peer without a scheduling point (harness).
+func (p *End) Inject(b []byte) {
+	p.out.segs = append(p.out.segs, append([]byte(nil), b...))
+	p.out.n += len(b)
+}
